@@ -11,7 +11,7 @@ arg <v> | cwd <v> | env <k> <v> | stdin_text <v> | stdin_inherit | stdin_null
 timeout_num <n>                     -> ok | refused     script-level `timeout_ms(n)`, n whole
 show                                -> program=… args=[…] cwd=… env=[k=v,…] stdin=… out=… err=… timeout=<n|none>
 validate                            -> ok program=… … timeout=<n> | err <name>
-run <allow:0|1>                     -> denied spawn=0 | invalid <name> spawn=0
+run <allow:0|1> [flat|loop|fn|box]  -> denied spawn=0 | invalid <name> spawn=0
                                        | spawned argv=[…] cwd=… env=[k=v,… sorted by key] stdin=… out=… err=…
 spawn                               -> as `run 1` (the implementation goes through the public API
                                        instead of a script)
@@ -145,6 +145,11 @@ def step1 (st : St) (line : String) : St × String :=
       | none => (st, "bad-op")
   | ["run", "0"] => (st, runLine st false)
   | ["run", "1"] => (st, runLine st true)
+  | ["run", a, shape] =>
+      -- the shape only says how the implementation lays the calls out in the script
+      if shape ∈ ["flat", "loop", "fn", "box"] then
+        (if a = "0" then (st, runLine st false) else if a = "1" then (st, runLine st true) else (st, "bad-op"))
+      else (st, "bad-op")
   | ["spawn"] => (st, runLine st true)
   | _ => (st, "bad-op")
 
